@@ -4,6 +4,14 @@
    fixes/C10_delete_is_not_true.patch); [KeepNotPred] is the previous code (WHERE NOT (p)), kept as the
    record of the fixed finding.  The check determines on every run which of the two the source
    implements; a revert shows up as a VIOLATION. *)
+(* The affected-file search is one DuckDB query over all files (union_by_name read).  What that read
+   answers is external behaviour, so the run is [delete_run_s v sh ...] with [sh] = "the union read's
+   WHERE returns this row of this file", and the theorems that need it carry the hypothesis
+   [search_faithful sh p ds]: the union read judges every row as the single-file read of the rewrite
+   does.  The check measures that hypothesis on DuckDB's own answers in every case; where DuckDB
+   breaks it (open finding: a field BIGINT in one file and DOUBLE in another compared with a
+   fractional constant) the statements C10_search_unfaithful_* say what goes wrong, and
+   C10_any_search what still holds. *)
 From Coq Require Import List ZArith NArith Bool Lia.
 From Arc Require Import Sql3VL.Model Sql3VL.Proofs.
 Import ListNotations.
@@ -14,13 +22,14 @@ Open Scope Z_scope.
    reports success, the rows of the measurement are exactly the previous rows for which the
    predicate is not TRUE (FALSE and NULL rows stay, in order), the reported count is the number of
    rows that disappeared, and files without a TRUE row are untouched. *)
-Theorem C10_exact : forall cf rq ds rsp ds',
+Theorem C10_exact : forall sh cf rq ds rsp ds',
+  search_faithful sh (rq_pred rq) ds ->
   rq_class rq = WValid -> rq_dry rq = false ->
-  delete_run KeepIsNotTrue cf rq ds = (rsp, ds') -> rs_status rsp = 200 ->
+  delete_run_s KeepIsNotTrue sh cf rq ds = (rsp, ds') -> rs_status rsp = 200 ->
   rows_of ds' = filter (not_true (rq_pred rq)) (rows_of ds) /\
   rs_deleted rsp = nrows ds - nrows ds' /\
   (forall f, In f ds -> is_affected (rq_pred rq) f = false -> In f ds').
-Proof. exact delete_exact_repaired. Qed.
+Proof. intros sh cf rq ds rsp ds' Hf. rewrite (delete_run_s_faithful _ _ _ _ _ Hf). apply delete_exact_repaired. Qed.
 Print Assumptions C10_exact.
 
 (* The previous code (before 33a2304) violated it: one file with x = NULL, 1, 2 and the predicate x = 1.
@@ -34,7 +43,8 @@ Definition w_req (dry : bool) : request :=
 
 Theorem C10_exact_refuted :
   exists cf rq ds rsp ds',
-    rq_class rq = WValid /\ rq_dry rq = false /\ delete_run KeepNotPred cf rq ds = (rsp, ds') /\ rs_status rsp = 200 /\
+    rq_class rq = WValid /\ rq_dry rq = false /\
+    delete_run_s KeepNotPred (ideal_search (rq_pred rq)) cf rq ds = (rsp, ds') /\ rs_status rsp = 200 /\
     rows_of ds' <> filter (not_true (rq_pred rq)) (rows_of ds) /\
     (exists r, In r (rows_of ds) /\ eval r (rq_pred rq) = U /\ ~ In r (rows_of ds')).
 Proof.
@@ -48,23 +58,25 @@ Print Assumptions C10_exact_refuted.
 
 (* Strongest true statement about the previous code: exact whenever no row of an affected file
    evaluates to NULL. *)
-Theorem C10_exact_guarded : forall cf rq ds rsp ds',
+Theorem C10_exact_guarded : forall sh cf rq ds rsp ds',
+  search_faithful sh (rq_pred rq) ds ->
   rq_class rq = WValid -> rq_dry rq = false ->
-  delete_run KeepNotPred cf rq ds = (rsp, ds') -> rs_status rsp = 200 ->
+  delete_run_s KeepNotPred sh cf rq ds = (rsp, ds') -> rs_status rsp = 200 ->
   (forall f, In f ds -> is_affected (rq_pred rq) f = true -> forall r, In r (snd f) -> eval r (rq_pred rq) <> U) ->
   rows_of ds' = filter (not_true (rq_pred rq)) (rows_of ds).
-Proof. exact delete_exact_guarded. Qed.
+Proof. intros sh cf rq ds rsp ds' Hf. rewrite (delete_run_s_faithful _ _ _ _ _ Hf). apply delete_exact_guarded. Qed.
 Print Assumptions C10_exact_guarded.
 
 (* What holds for BOTH variants on every dataset and predicate: no surviving row is TRUE, every
    FALSE row survives, files without a TRUE row are untouched - the only rows the code as it is
    removes wrongly are NULL-verdict rows of affected files. *)
-Theorem C10_safe : forall v cf rq ds rsp ds',
-  rq_class rq = WValid -> rq_dry rq = false -> delete_run v cf rq ds = (rsp, ds') -> rs_status rsp = 200 ->
+Theorem C10_safe : forall v sh cf rq ds rsp ds',
+  search_faithful sh (rq_pred rq) ds ->
+  rq_class rq = WValid -> rq_dry rq = false -> delete_run_s v sh cf rq ds = (rsp, ds') -> rs_status rsp = 200 ->
   (forall r, In r (rows_of ds') -> holds r (rq_pred rq) = false) /\
   (forall r, In r (rows_of ds) -> eval r (rq_pred rq) = F -> In r (rows_of ds')) /\
   (forall f, In f ds -> is_affected (rq_pred rq) f = false -> In f ds').
-Proof. exact delete_safe. Qed.
+Proof. intros v sh cf rq ds rsp ds' Hf. rewrite (delete_run_s_faithful _ _ _ _ _ Hf). apply delete_safe. Qed.
 Print Assumptions C10_safe.
 
 (* the root cause, as a statement about the logic: NOT (p) is TRUE exactly where p is FALSE *)
@@ -73,47 +85,58 @@ Proof. exact holds_not. Qed.
 Print Assumptions C10_not_keeps_only_false.
 
 (* The reported count equals the number of rows that disappeared - both variants. *)
-Theorem C10_count : forall v cf rq ds rsp ds',
-  rq_class rq = WValid -> rq_dry rq = false -> delete_run v cf rq ds = (rsp, ds') -> rs_status rsp = 200 ->
+Theorem C10_count : forall v sh cf rq ds rsp ds',
+  rq_dry rq = false -> delete_run_s v sh cf rq ds = (rsp, ds') -> rs_status rsp = 200 \/ rs_status rsp = 207 ->
   rs_deleted rsp = nrows ds - nrows ds'.
-Proof. exact delete_count. Qed.
+Proof. intros v sh cf rq ds rsp ds' Hd H Hs. destruct (delete_any_search _ _ _ _ _ _ _ H) as (_ & Hc & _). apply Hc; assumption. Qed.
 Print Assumptions C10_count.
 
 (* A dry run, and any request that does not report 200, changes nothing (both variants, any
    request class); a successful dry run reports the number of TRUE rows of the measurement. *)
-Theorem C10_dry_run : forall v cf rq ds rsp ds',
-  rq_dry rq = true -> delete_run v cf rq ds = (rsp, ds') ->
-  ds' = ds /\ (rq_class rq = WValid -> rs_status rsp = 200 ->
+Theorem C10_dry_run : forall v sh cf rq ds rsp ds',
+  rq_dry rq = true -> delete_run_s v sh cf rq ds = (rsp, ds') ->
+  ds' = ds /\ (search_faithful sh (rq_pred rq) ds -> rq_class rq = WValid -> rs_status rsp = 200 ->
                rs_deleted rsp = countb (fun r => holds r (rq_pred rq)) (rows_of ds)).
-Proof. exact delete_dry_run. Qed.
+Proof.
+  intros v sh cf rq ds rsp ds' Hd H. split.
+  - destruct (delete_any_search _ _ _ _ _ _ _ H) as (_ & _ & Hu). apply Hu. right; exact Hd.
+  - intros Hf. rewrite (delete_run_s_faithful _ _ _ _ _ Hf) in H. apply (delete_dry_run _ _ _ _ _ _ Hd H).
+Qed.
 Print Assumptions C10_dry_run.
 
-Theorem C10_rejected_unchanged : forall v cf rq ds rsp ds',
-  delete_run v cf rq ds = (rsp, ds') -> rs_status rsp <> 200 -> rs_status rsp <> 207 -> ds' = ds.
-Proof. intros v cf rq ds rsp ds' H Hs H7. eapply delete_run_unchanged_unless_ok; [exact H|left; split; assumption]. Qed.
+Theorem C10_rejected_unchanged : forall v sh cf rq ds rsp ds',
+  delete_run_s v sh cf rq ds = (rsp, ds') -> rs_status rsp <> 200 -> rs_status rsp <> 207 -> ds' = ds.
+Proof.
+  intros v sh cf rq ds rsp ds' H Hs H7. destruct (delete_any_search _ _ _ _ _ _ _ H) as (_ & _ & Hu).
+  apply Hu. left; split; assumption.
+Qed.
 Print Assumptions C10_rejected_unchanged.
 
 (* Files of a measurement may lack a column the predicate names (schema evolution): the search sees
    NULL there, the single-file rewrite does not bind and fails.  Such a run is REPORTED (207,
    success = false, failed_files > 0), the count is still the number of rows that disappeared, no
    FALSE row is lost and unaffected files are untouched - both variants, every dataset. *)
-Theorem C10_partial_reported : forall v cf rq ds rsp ds',
-  rq_class rq = WValid -> delete_run v cf rq ds = (rsp, ds') -> rs_status rsp = 207 ->
+Theorem C10_partial_reported : forall v sh cf rq ds rsp ds',
+  search_faithful sh (rq_pred rq) ds ->
+  rq_class rq = WValid -> delete_run_s v sh cf rq ds = (rsp, ds') -> rs_status rsp = 207 ->
   rs_success rsp = false /\ 0 < rs_failed rsp /\ rs_deleted rsp = nrows ds - nrows ds' /\
   (forall r, In r (rows_of ds) -> eval r (rq_pred rq) = F -> In r (rows_of ds')) /\
   (forall f, In f ds -> is_affected (rq_pred rq) f = false -> In f ds').
-Proof. exact delete_partial. Qed.
+Proof. intros v sh cf rq ds rsp ds' Hf. rewrite (delete_run_s_faithful _ _ _ _ _ Hf). apply delete_partial. Qed.
 Print Assumptions C10_partial_reported.
 
 (* Dry run and real run of the same confirmed request: when the real run succeeds, the dry run
    succeeded too and reported the same count (current rewrite). *)
-Theorem C10_same_count : forall cf rq ds,
+Theorem C10_same_count : forall sh cf rq ds,
+  search_faithful sh (rq_pred rq) ds ->
   rq_class rq = WValid -> rq_confirm rq = true ->
-  let rd := fst (delete_run KeepIsNotTrue cf (with_dry rq true) ds) in
-  let rr := fst (delete_run KeepIsNotTrue cf (with_dry rq false) ds) in
+  let rd := fst (delete_run_s KeepIsNotTrue sh cf (with_dry rq true) ds) in
+  let rr := fst (delete_run_s KeepIsNotTrue sh cf (with_dry rq false) ds) in
   rs_status rr = 200 -> rs_status rd = 200 /\ rs_deleted rd = rs_deleted rr.
 Proof.
-  intros cf rq ds Hc Hcf. apply delete_same_count_when; try assumption. intros; apply keep_repaired.
+  intros sh cf rq ds Hf Hc Hcf.
+  rewrite (delete_run_s_faithful KeepIsNotTrue sh cf (with_dry rq true) ds Hf), (delete_run_s_faithful KeepIsNotTrue sh cf (with_dry rq false) ds Hf).
+  apply delete_same_count_when; try assumption. intros; apply keep_repaired.
 Qed.
 Print Assumptions C10_same_count.
 
@@ -121,24 +144,80 @@ Print Assumptions C10_same_count.
 Theorem C10_same_count_refuted :
   exists cf rq ds,
     rq_class rq = WValid /\ rq_confirm rq = true /\
-    let rd := fst (delete_run KeepNotPred cf (with_dry rq true) ds) in
-    let rr := fst (delete_run KeepNotPred cf (with_dry rq false) ds) in
+    let rd := fst (delete_run_s KeepNotPred (ideal_search (rq_pred rq)) cf (with_dry rq true) ds) in
+    let rr := fst (delete_run_s KeepNotPred (ideal_search (rq_pred rq)) cf (with_dry rq false) ds) in
     rs_status rd = 200 /\ rs_status rr = 200 /\ rs_deleted rd = 1 /\ rs_deleted rr = 2.
 Proof. exists w_cfg, (w_req false), w_ds. vm_compute. repeat split; reflexivity. Qed.
 Print Assumptions C10_same_count_refuted.
 
 (* ... and true under the same guard. *)
-Theorem C10_same_count_guarded : forall cf rq ds,
+Theorem C10_same_count_guarded : forall sh cf rq ds,
+  search_faithful sh (rq_pred rq) ds ->
   rq_class rq = WValid -> rq_confirm rq = true ->
   (forall f, In f ds -> is_affected (rq_pred rq) f = true -> forall r, In r (snd f) -> eval r (rq_pred rq) <> U) ->
-  let rd := fst (delete_run KeepNotPred cf (with_dry rq true) ds) in
-  let rr := fst (delete_run KeepNotPred cf (with_dry rq false) ds) in
+  let rd := fst (delete_run_s KeepNotPred sh cf (with_dry rq true) ds) in
+  let rr := fst (delete_run_s KeepNotPred sh cf (with_dry rq false) ds) in
   rs_status rr = 200 -> rs_status rd = 200 /\ rs_deleted rd = rs_deleted rr.
 Proof.
-  intros cf rq ds Hc Hcf Hn. apply delete_same_count_when; try assumption.
-  intros f Hf Ha r Hr. apply keep_asis_no_null. eapply Hn; eassumption.
+  intros sh cf rq ds Hf Hc Hcf Hn.
+  rewrite (delete_run_s_faithful KeepNotPred sh cf (with_dry rq true) ds Hf), (delete_run_s_faithful KeepNotPred sh cf (with_dry rq false) ds Hf).
+  apply delete_same_count_when; try assumption.
+  intros f Hin Ha r Hr. apply keep_asis_no_null. eapply Hn; eassumption.
 Qed.
 Print Assumptions C10_same_count_guarded.
+
+(* ---- the search hypothesis ---------------------------------------------------------------------- *)
+(* the ideal search satisfies it, and with it the run is the run the code intends *)
+Theorem C10_ideal_search : forall v cf rq ds,
+  search_faithful (ideal_search (rq_pred rq)) (rq_pred rq) ds /\
+  delete_run_s v (ideal_search (rq_pred rq)) cf rq ds = delete_run v cf rq ds.
+Proof. intros. split; [apply ideal_search_faithful|apply delete_run_s_ideal]. Qed.
+Print Assumptions C10_ideal_search.
+
+(* Whatever the union read answers (ANY search, both variants, every dataset and request): no FALSE row
+   is ever lost, a real run that reports 200 or 207 reports exactly the number of rows that disappeared,
+   and a dry run or a run reporting anything else changes nothing. *)
+Theorem C10_any_search : forall v sh cf rq ds rsp ds',
+  delete_run_s v sh cf rq ds = (rsp, ds') ->
+  (forall r, In r (rows_of ds) -> eval r (rq_pred rq) = F -> In r (rows_of ds')) /\
+  (rq_dry rq = false -> rs_status rsp = 200 \/ rs_status rsp = 207 -> rs_deleted rsp = nrows ds - nrows ds') /\
+  ((rs_status rsp <> 200 /\ rs_status rsp <> 207) \/ rq_dry rq = true -> ds' = ds).
+Proof. exact delete_any_search. Qed.
+Print Assumptions C10_any_search.
+
+(* Without the hypothesis the property fails - and DuckDB does break it (open finding): one file where x
+   is BIGINT holds x = 1, another file has x as DOUBLE; for  x < 1.25  the union read evaluates the
+   pushed-down comparison on the BIGINT file with the constant rounded to 1 and returns nothing, so the
+   file is not found: the delete reports success, 0 rows, and the selected row is still there ... *)
+Definition u_ds : dataset := [(1%N, [[VNum 4; VNum 4]]); (2%N, [[VNum 8; VNum 10]])].      (* (id, x): x = 1 | x = 2.5 *)
+Definition u_lt : pred := PCmp CLt (OCol 1) (OLit (VNum 5)).                                 (* x < 1.25 *)
+Definition u_eq : pred := PCmp CEq (OCol 1) (OLit (VNum 5)).                                 (* x = 1.25 *)
+Definition u_req (p : pred) (dry : bool) : request :=
+  {| rq_class := WValid; rq_full := false; rq_pred := p; rq_dry := dry; rq_confirm := true |}.
+
+Theorem C10_search_unfaithful_refuted :
+  exists sh cf rq ds rsp ds' r,
+    rq_class rq = WValid /\ rq_dry rq = false /\
+    delete_run_s KeepIsNotTrue sh cf rq ds = (rsp, ds') /\ rs_status rsp = 200 /\ rs_success rsp = true /\
+    In r (rows_of ds') /\ eval r (rq_pred rq) = T.
+Proof.
+  exists (fun _ _ => false), w_cfg, (u_req u_lt false), u_ds. eexists. eexists. exists [VNum 4; VNum 4].
+  split; [reflexivity|]. split; [reflexivity|]. split; [vm_compute; reflexivity|].
+  split; [reflexivity|]. split; [reflexivity|]. split; [vm_compute; tauto|reflexivity].
+Qed.
+Print Assumptions C10_search_unfaithful_refuted.
+
+(* ... and for  x = 1.25  it returns the row x = 1: the dry run announces 1 row, the delete removes 0. *)
+Theorem C10_search_unfaithful_count_refuted :
+  exists sh cf rq ds,
+    rq_class rq = WValid /\ rq_confirm rq = true /\
+    let rd := fst (delete_run_s KeepIsNotTrue sh cf (with_dry rq true) ds) in
+    let rr := fst (delete_run_s KeepIsNotTrue sh cf (with_dry rq false) ds) in
+    rs_status rd = 200 /\ rs_status rr = 200 /\ rs_deleted rd = 1 /\ rs_deleted rr = 0.
+Proof.
+  exists (fun fid _ => N.eqb fid 1), w_cfg, (u_req u_eq false), u_ds. vm_compute. repeat split; reflexivity.
+Qed.
+Print Assumptions C10_search_unfaithful_count_refuted.
 
 (* ---- non-vacuity ------------------------------------------------------------------------------- *)
 (* the hypotheses of C10_exact hold on the witness dataset, where the repaired rewrite keeps the
